@@ -96,7 +96,7 @@ def _mk_world():
             self.secret = 's3cret'
 
         def dbus_Hello(self):
-            return 'hi'
+            return 'hello from ' + self.getObjectPath()
 
         def dbus_Other(self):
             pass
@@ -160,6 +160,15 @@ def build(family, p):
                 else:
                     check(r._messageType == 3 and r.error_name == 'org.freedesktop.DBus.Error.UnknownObject',
                           'a path that is not exported must answer UnknownObject')
+                # a member the object really has: answered by the object iff it is exported now (a lookup that succeeded
+                # earlier must not survive an unexport)
+                for ifc in ('org.t.Tree1', None):
+                    r = call(handler, conn, q, 'Hello', ifc)
+                    if q in exported:
+                        check(r._messageType == 2 and r.body == ['hello from ' + q], 'a call to an exported object must reach it')
+                    else:
+                        check(r._messageType == 3 and r.error_name == 'org.freedesktop.DBus.Error.UnknownObject',
+                              'a call to a path that is not exported (any more) must answer UnknownObject')
                 r = call(handler, conn, q, 'Introspect', 'org.freedesktop.DBus.Introspectable')
                 if q in exported or below:
                     check(r._messageType == 2 and r.signature == 's', 'Introspect must succeed for an object or an inner node')
